@@ -83,10 +83,17 @@ type listSys struct {
 	u         *listUniverse
 	prop      string
 	versioned bool
-	bucket    string
-	live      map[string]bool
-	foreign   *int64
-	last      string
+	toggles   bool // versioned plan that also suspends and re-enables versioning
+	ever      map[string]bool
+	// which operations hit a key under which status: whether a version is a "null" version is
+	// invisible in a suspended bucket's listings but decides what later deletes do, so the
+	// history that determines it is part of the state key
+	era     map[string]string
+	status  string // Enabled | Suspended (versioned plans)
+	bucket  string
+	live    map[string]bool
+	foreign *int64
+	last    string
 }
 
 func listBody(k string) []byte { return []byte("v:" + k) }
@@ -154,6 +161,21 @@ func (s *listSys) Ops() []engine.Op {
 			ops = append(ops, listOp{"mdelete", k})
 		}
 	}
+	if s.toggles {
+		// overwrites of live keys and repeated deletes matter once versions pile up
+		for _, k := range s.u.keys {
+			if s.live[k] {
+				ops = append(ops, listOp{"put", k})
+			} else if s.ever[k] {
+				ops = append(ops, listOp{"delete", k})
+			}
+		}
+		if s.status == "Enabled" {
+			ops = append(ops, listOp{"suspend", ""})
+		} else {
+			ops = append(ops, listOp{"enable", ""})
+		}
+	}
 	// deleting a key that does not exist but is the "directory" of live keys must change nothing
 	if !s.versioned {
 		seen := map[string]bool{}
@@ -181,16 +203,33 @@ func (s *listSys) Apply(op engine.Op) (string, *engine.Violation) {
 	s.last = o.kind
 	var r drv.Resp
 	want := 200
-	if o.kind == "put" {
+	if o.kind == "suspend" || o.kind == "enable" {
+		st := "Suspended"
+		if o.kind == "enable" {
+			st = "Enabled"
+		}
+		r = s.w.Do(drv.Req{Method: "PUT", Path: "/" + s.bucket, Query: "versioning", Body: []byte("<VersioningConfiguration><Status>" + st + "</Status></VersioningConfiguration>")})
+		s.status = st
+	} else if o.kind == "put" {
 		r = s.w.Do(drv.Req{Method: "PUT", Path: "/" + s.bucket + "/" + o.k, Body: listBody(o.k)})
 		s.live[o.k] = true
+		if s.ever != nil {
+			s.ever[o.k] = true
+			s.era[o.k] += "p" + s.status[:1]
+		}
 	} else if o.kind == "mdelete" {
 		r = s.w.Do(drv.Req{Method: "POST", Path: "/" + s.bucket, Query: "delete", Body: multiDeleteBody([]string{o.k}, true)})
 		delete(s.live, o.k)
+		if s.era != nil {
+			s.era[o.k] += "m" + s.status[:1]
+		}
 	} else {
 		r = s.w.Do(drv.Req{Method: "DELETE", Path: "/" + s.bucket + "/" + o.k})
 		delete(s.live, o.k)
 		want = 204
+		if s.era != nil {
+			s.era[o.k] += "d" + s.status[:1]
+		}
 	}
 	if r.Status != want || r.Panic != "" {
 		// a put/delete that misbehaves is C02's business (DESIGN B.2): prune, do not report here
@@ -200,7 +239,7 @@ func (s *listSys) Apply(op engine.Op) (string, *engine.Violation) {
 }
 
 func (s *listSys) Key() string {
-	return drv.KeyOf(s.w.Snapshot(drv.SnapOpts{Versions: s.versioned || s.w.Cfg.Kind == drv.Mem}) + "MODEL " + strings.Join(s.liveKeys(), "\x00"))
+	return drv.KeyOf(s.w.Snapshot(drv.SnapOpts{Versions: s.versioned || s.w.Cfg.Kind == drv.Mem}) + "MODEL " + s.status + strings.Join(s.liveKeys(), "\x00") + fmt.Sprint(len(s.ever)) + drv.MetaString(s.era))
 }
 
 func (s *listSys) delims() []string {
@@ -632,6 +671,7 @@ func (s *listSys) walkSA(base, d string, all []model.LEntry, mk int, v2, hasStar
 // ---- runners -------------------------------------------------------------
 
 type listPlan struct {
+	toggles   bool // versioned plan with suspend/enable operations
 	cfg       drv.Config
 	u         *listUniverse
 	versioned bool
@@ -687,6 +727,10 @@ func listPlans(c *engine.Ctx, prop string) []listPlan {
 	}
 	// versioned variant (delete-marked keys): version stacks grow with depth, so a smaller universe
 	plans = append(plans, listPlan{cfg: drv.Config{Kind: drv.Mem}, u: newListUniverse("ab/", 3, 3, "a", 6), versioned: true, depth: depth})
+	// ... and with versioning suspended and re-enabled in between: a deleted key stays deleted
+	if prop == "C03" {
+		plans = append(plans, listPlan{cfg: drv.Config{Kind: drv.Mem}, u: newListUniverse("ab/", 3, 2, "a", 3), versioned: true, toggles: true, depth: depth})
+	}
 	if prop == "C04" {
 		// keys whose base64 form uses the characters that differ between the standard and the URL alphabet
 		plans = append(plans, listPlan{cfg: drv.Config{Kind: drv.Mem}, u: newListUniverse("a~/", 3, 3, "a", 8), depth: depth - 1})
@@ -706,9 +750,18 @@ func runList(c *engine.Ctx, prop string) {
 		if pl.versioned {
 			name += "/versioned"
 		}
+		if pl.toggles {
+			name += "+suspend"
+		}
 		engine.RunSeq(c, engine.SeqSpec{Name: name, World: worldName(pl.cfg), MaxDepth: pl.depth,
 			New: func() (engine.Sys, error) {
 				s, err := newListSys(pl.cfg, pl.u, prop, pl.versioned)
+				if err == nil && pl.versioned {
+					s.status = "Enabled"
+					s.toggles = pl.toggles
+					s.ever = map[string]bool{}
+					s.era = map[string]string{}
+				}
 				if err != nil {
 					return nil, err
 				}
